@@ -359,10 +359,28 @@ class PVLParser(object):
                             (agg, keep_parsing) = self.parse_module_post_hook(
                                 agg, tokens
                             )
-                            if not keep_parsing:
-                                raise ve
+                        except LexerError:
+                            raise
                         except Exception:
-                            raise ve
+                            keep_parsing = False
+
+                        if not keep_parsing:
+                            # The Begin-Aggregation-Statement (and maybe
+                            # more) has already been consumed, so this is
+                            # not a "first token" mismatch that the caller
+                            # could recover from by trying something else
+                            # (that would silently drop this block).
+                            try:
+                                tokens.throw(ValueError, str(ve))
+                            except LexerError:
+                                raise
+                            except ValueError:
+                                # No tokens left to attach a position to.
+                                raise ParseError(
+                                    "Ran out of tokens before finding the "
+                                    "End-Aggegation-Statement that matches "
+                                    f'"{begin} = {block_name}".'
+                                )
 
         return block_name, agg
 
